@@ -228,6 +228,7 @@ class World:
         self.guard_default = True
         self.grad_poisoned = False
         self.aborted_backward = False
+        self.graph_cycle_seen = False
         self.exact = bool(self.cfg.get("exact", False))
         dts = self.cfg.get("dtypes", ["f8"])
         self.tol_dtype = np.float16 if "f2" in dts else (np.float32 if "f4" in dts else np.float64)
@@ -941,7 +942,33 @@ class World:
         del t
         self._resync()
         self.h_update(np.asarray(self.T[h].data))
+        if self.tracking and self._own_ancestor(self.T[h]):
+            self.graph_cycle_seen = True
+            self.probe("graph_cycle_created_by_inplace")
         return Outcome("ok")
+
+    @staticmethod
+    def _own_ancestor(t0, limit=400):
+        """is the tensor upstream of itself (public creator/variables walk)?"""
+        seen = set()
+        stack = []
+        c = t0.creator
+        if c is None:
+            return False
+        stack.extend(c.variables)
+        n = 0
+        while stack and n < limit:
+            x = stack.pop()
+            n += 1
+            if x is t0:
+                return True
+            if id(x) in seen:
+                continue
+            seen.add(id(x))
+            c = x.creator
+            if c is not None:
+                stack.extend(c.variables)
+        return False
 
     def _tape_inplace(self, h, ev, refs, idx, mask):
         tp = self.tape
